@@ -5,6 +5,7 @@
 -/
 import PestModel.Stack
 import PestModel.State
+import PestModel.Drv.Core
 
 open Pest
 
@@ -106,25 +107,30 @@ def runState (toks : List String) : String :=
       | some op => let (c', out) := stateStep c op; go c' (out :: acc) ts
   " ".intercalate (go (.init 0) [] toks)
 
-def handle (line : String) : String :=
-  match (line.splitOn " ").filter (· ≠ "") with
-  | "S" :: toks => runStack toks
-  | "I" :: toks => runInt toks
-  | "PS" :: toks => runState toks
-  | [] => ""
-  | cmd :: _ => "bad-request:" ++ cmd
+def handle (sess : Session) (line : String) : Session × String :=
+  let toks := (line.splitOn " ").filter (· ≠ "")
+  match toks with
+  | "S" :: toks => (sess, runStack toks)
+  | "I" :: toks => (sess, runInt toks)
+  | "PS" :: toks => (sess, runState toks)
+  | [] => (sess, "")
+  | cmd :: _ =>
+    match handleCore sess toks with
+    | some r => r
+    | none => (sess, "bad-request:" ++ cmd)
 
 end Drv
 
-partial def loop (hin hout : IO.FS.Stream) : IO Unit := do
+partial def loop (hin hout : IO.FS.Stream) (sess : Drv.Session) : IO Unit := do
   let line ← hin.getLine
   if line.isEmpty then return ()
   let l := if line.endsWith "\n" then (line.dropEnd 1).toString else line
-  hout.putStrLn (Drv.handle l)
-  loop hin hout
+  let (sess', out) := Drv.handle sess l
+  hout.putStrLn out
+  loop hin hout sess'
 
 def main : IO Unit := do
   let hin ← IO.getStdin
   let hout ← IO.getStdout
-  loop hin hout
+  loop hin hout {}
   hout.flush
